@@ -38,9 +38,25 @@ fn main() {
     if std::env::var("XMLRS_DRIVER_VERBOSE").is_err() {
         panic::set_hook(Box::new(|_| {}));
     }
+    // Watchdog: a request that runs longer than the limit (a cycle in the tree, an exponential parse) is answered
+    // with the outcome class `timeout` and the process ends with status 3; the caller resumes with the next line.
+    let limit_ms: u64 = std::env::var("XMLRS_LINE_TIMEOUT_MS").ok().and_then(|v| v.parse().ok()).unwrap_or(20_000);
+    let started = std::sync::Arc::new(std::sync::atomic::AtomicU64::new(0));
+    let clock = std::time::Instant::now();
+    {
+        let started = started.clone();
+        std::thread::spawn(move || loop {
+            std::thread::sleep(std::time::Duration::from_millis(50));
+            let s = started.load(std::sync::atomic::Ordering::SeqCst);
+            if s != 0 && clock.elapsed().as_millis() as u64 > s + limit_ms {
+                // nothing of the running request has been written yet (responses are written whole)
+                let _ = writeln!(io::stdout(), "timeout");
+                let _ = io::stdout().flush();
+                std::process::exit(3);
+            }
+        });
+    }
     let stdin = io::stdin();
-    let stdout = io::stdout();
-    let mut out = stdout.lock();
     for line in stdin.lock().lines() {
         let line = match line {
             Ok(l) => l,
@@ -49,11 +65,14 @@ fn main() {
         let mut parts = line.split('\t');
         let op = parts.next().unwrap_or("").to_string();
         let args: Vec<String> = parts.map(enc::decode).collect();
+        started.store(clock.elapsed().as_millis() as u64 + 1, std::sync::atomic::Ordering::SeqCst);
         let res = panic::catch_unwind(|| dispatch(&op, &args));
+        started.store(0, std::sync::atomic::Ordering::SeqCst);
         let text = match res {
             Ok(s) => s,
             Err(_) => "panic".to_string(),
         };
+        let mut out = io::stdout().lock();
         let _ = writeln!(out, "{}", text);
         let _ = out.flush();
     }
